@@ -2,7 +2,8 @@
 // C11: unparse / parse round trip. In-target oracle: the rendering of a parsed expression parses again, to the same
 // tree up to ranges (and the `u` kind, listed finding C11-F2), and renders to the same text a second time.
 // Listed finding C11-F1 (a string inside a replacement field is escaped together with the f-string body) is excluded
-// by construction: such inputs only have to stay panic-free.
+// by construction: such inputs only have to stay panic-free. So is C11-F3 (a format spec whose text the unparser has
+// to escape: the parser keeps spec escapes verbatim, C07-F1).
 mod common;
 use libfuzzer_sys::fuzz_target;
 use rustpython_ast::fold::Fold;
@@ -13,6 +14,7 @@ use rustpython_parser::Parse;
 #[derive(Default)]
 struct Erase {
     in_field: u32,
+    in_spec: u32,
     string_in_field: bool,
 }
 impl Fold<TextRange> for Erase {
@@ -26,6 +28,13 @@ impl Fold<TextRange> for Erase {
     fn fold_expr_constant(&mut self, mut node: ast::ExprConstant<TextRange>) -> Result<ast::ExprConstant<()>, Self::Error> {
         if self.in_field > 0 && matches!(node.value, Constant::Str(_) | Constant::Bytes(_)) {
             self.string_in_field = true;
+        }
+        if self.in_spec > 0 {
+            if let Constant::Str(s) = &node.value {
+                if s.chars().any(|c| c == '\\' || c == '\'' || c == '"' || !(' '..='~').contains(&c)) {
+                    self.string_in_field = true; // (same flag: the input lies in a listed finding's region)
+                }
+            }
         }
         node.kind = None;
         ast::fold::fold_expr_constant(self, node)
@@ -41,10 +50,12 @@ impl Fold<TextRange> for Erase {
         self.in_field += 1;
         let value = Box::new(self.fold_expr(*value)?);
         self.in_field -= 1;
+        self.in_spec += 1;
         let format_spec = match format_spec {
             Some(f) => Some(Box::new(self.fold_expr(*f)?)),
             None => None,
         };
+        self.in_spec -= 1;
         Ok(ast::ExprFormattedValue { value, conversion, format_spec, range: () })
     }
 }
